@@ -93,10 +93,11 @@ static void *suspender(void *a) {
 
 static uint64_t rd_pending(slot_t *s) { return *(volatile uint64_t *)&s->ds->ds_refs->ds_pending_data; }
 static uint64_t rd_state(slot_t *s) { return *(volatile uint64_t *)&s->ds->dq_state; }
-// the source is at rest: nobody holds the drain lock, it is neither enqueued nor dirty, no handler is running
+// the source is at rest: nobody holds the drain lock, it is not enqueued, no handler is running (DIRTY may legitimately
+// stay set on an idle source: invoke_finish and the suspended unlock leave it, every lock acquirer clears it)
 static int at_rest(slot_t *s) {
 	uint64_t st = rd_state(s);
-	return !(st & (DISPATCH_QUEUE_DRAIN_OWNER_MASK | DISPATCH_QUEUE_ENQUEUED | DISPATCH_QUEUE_ENQUEUED_ON_MGR | DISPATCH_QUEUE_DIRTY))
+	return !(st & (DISPATCH_QUEUE_DRAIN_OWNER_MASK | DISPATCH_QUEUE_ENQUEUED | DISPATCH_QUEUE_ENQUEUED_ON_MGR))
 			&& atomic_load(&s->inhandler) == 0;
 }
 // wait (bounded) until cond; returns 1 when it became true
